@@ -2,8 +2,8 @@
 import os
 from tools.py2lean import gen_c10
 
-LEAN_TARGETS = ["EasyFEAVerif.Props.C10"]
-PROPS_MODULES = ["EasyFEAVerif.Props.C10"]
+LEAN_TARGETS = ["EasyFEAVerif.Props.C10", "EasyFEAVerif.Props.C10Pressure"]
+PROPS_MODULES = ["EasyFEAVerif.Props.C10", "EasyFEAVerif.Props.C10Pressure"]
 TRUSTED_EXTRA = [
     "C10: Get_Pmat is translated from the source (literal arrays A, B, D2 and the block assembly [[D1, √2 A], [√2 B, D2]]); normalisation of the axes and the batch (e / e,p) index handling are not translated: they are compared on the real code by the C11 and C10 harnesses",
     "C10: the full-pipeline statement composes Part 2 / Part 3 with C03 (assembly), C04 (uniqueness) and C05 (schemes are linear in K, C, M); the composition is stated (solution_moves), its instances are exercised on the real code by the harness; beam local axes (_Calc_P) are not modelled; the orientation of the beam derivatives along the fiber is (Props.C10.Fiber, statements pinned by Gen/C10/Fiber.lean); the beam responses themselves are covered by the harness",
